@@ -223,6 +223,8 @@ def check_pairing(ctx, ob, program, views, pairing, skip_methods=("__init__",), 
     """Local balance (Appendix E): every method body balanced on every path; unbalanced private helpers are
     spliced into their callers (fixpoint)."""
     reported = set()
+    if ctx.tier == "thorough":
+        loop_iters = (0, 1, 2)      # local (un-spliced) walks are cheap: also take every loop twice so that per-iteration imbalance shows
     for view in views:
         unbalanced = set()
         results = {}
